@@ -282,10 +282,28 @@ class Session(BusSession):
             self.write_fifo(fifo, st)
             self.running[name] = False
             if st == '0':
-                # a successful exit without taking the name: the bus deliberately waits for the timeout
-                self.settle()
-                time.sleep(0.02)
-                self.settle()
+                # a successful exit without taking the name: the bus deliberately waits for the timeout.  Nothing observable
+                # is required to change, so wait for the process to be gone and for the bus's state to stop moving
+                # (whatever the bus does on noticing the exit must have happened before the next operation).
+                self.start_log()
+                pid = (self.pids.get(name) or [None])[-1]
+                t_end = time.time() + 12.0
+                while pid and time.time() < t_end:
+                    try:
+                        os.kill(pid, 0)
+                    except ProcessLookupError:
+                        break
+                    except PermissionError:
+                        pass
+                    time.sleep(0.003)
+                last, same = None, 0
+                t_end = time.time() + 12.0
+                while same < 4 and time.time() < t_end:
+                    self.settle()
+                    d = self.bus.dump()
+                    same = same + 1 if d == last else 0
+                    last = d
+                    time.sleep(0.01)
                 self.hit('exit-0')
             else:
                 if not self.settle(want_gone=[name]):
